@@ -243,6 +243,16 @@ def run(chk):
         progs += variants(p)
     if quick and len(progs) > 900:
         progs = random.Random(chk.seed).sample(progs, 900)
+    # the same multi-line handlers with a comment between every two lines (three styles): a comment never changes what a handler does --
+    # the commented text is rejected (a comment between two switch clauses is) or performs the same effects
+    import copy
+    rr = random.Random(chk.seed + 5)
+    multi = [p for p in progs if "switch" in lang.r_handler(p)]
+    rest = [p for p in progs if "switch" not in lang.r_handler(p) and lang.r_handler(p).count("\n") > 2]
+    for n, p in enumerate(rr.sample(multi, min(len(multi), 150 if quick else 1500)) + rr.sample(rest, min(len(rest), 50 if quick else 500))):
+        q = copy.deepcopy(p)
+        q["cm"] = 1 + n % 3
+        progs.append(q)
     for i, p in enumerate(progs):
         p["id"] = "h%d" % i
     log("C13: %d handler programs" % len(progs))
@@ -255,6 +265,8 @@ def run(chk):
         r = runs[p["id"]]
         if r.get("panic"):
             continue
+        if not P.is_accepted(r) and p.get("cm"):
+            continue        # comments in some positions are not supported: rejected with a diagnostic, which is within the statement
         if not P.is_accepted(r):
             chk.violation("well-typed handler rejected: %s" % [d["msg"] for d in r.get("diags", [])][:2], {"qml": srcs[p["id"]], "program": p})
             continue
